@@ -550,3 +550,54 @@ pub fn describe_moves(ms: &[Mv]) -> Vec<String> {
 
 #[allow(dead_code)]
 pub fn noop(_: &oracle::Pos) {}
+
+/// Under-promotion studies: few men, a pawn one step from promotion, and promoting to a queen
+/// stalemates the opponent (so a rook/bishop/knight promotion or another move is strictly better),
+/// or a knight promotion gives check. Found by rejection sampling with the reference rules.
+pub fn g_underpromo(rng: &mut Rng) -> Pos {
+    loop {
+        let mut p = Pos::empty();
+        p.stm = WHITE;
+        let f = rng.below(8) as i8;
+        p.sq[sq(f, 6) as usize] = pc(WHITE, P);
+        // the defending king close to the promotion square, the attacking king close to it
+        let bk = sq((f + rng.range(-2, 2) as i8).clamp(0, 7), rng.range(5, 7) as i8);
+        if p.sq[bk as usize] != 0 {
+            continue;
+        }
+        p.sq[bk as usize] = pc(BLACK, K);
+        let wk = sq((file_of(bk) + rng.range(-2, 2) as i8).clamp(0, 7), (rank_of(bk) + rng.range(-2, 0) as i8).clamp(0, 7));
+        if p.sq[wk as usize] != 0 {
+            continue;
+        }
+        p.sq[wk as usize] = pc(WHITE, K);
+        for _ in 0..rng.range(0, 3) {
+            let s = rng.below(64) as u8;
+            if p.sq[s as usize] == 0 {
+                let piece = pc(rng.below(2) as u8, *rng.pick(&[P, P, N, B, R]));
+                if kind(piece) == P && (rank_of(s) == 0 || rank_of(s) == 7) {
+                    continue;
+                }
+                p.sq[s as usize] = piece;
+            }
+        }
+        if p.validity().is_err() {
+            continue;
+        }
+        let legal = p.legal_moves();
+        let interesting = legal.iter().any(|m| {
+            if m.promo == Q {
+                let n = p.make(m);
+                !n.in_check() && n.legal_moves().is_empty()
+            } else if m.promo == N {
+                p.make(m).in_check()
+            } else {
+                false
+            }
+        });
+        if !interesting {
+            continue;
+        }
+        return if rng.chance(1, 2) { mirror(&p) } else { p };
+    }
+}
